@@ -5,7 +5,7 @@ import shutil
 import tempfile
 
 from engine import gen_states, pool_map
-from readers import join_lines, run_cli, split_tag, write_text, workdir, lines_of
+from readers import read_out, join_lines, run_cli, split_tag, write_text, workdir, lines_of
 
 N1 = "ACGTTGCAAGGCTTAACGGATCCA"
 N2 = "TTGACCGATAGGCATCAAGT"
@@ -73,7 +73,7 @@ def run_file(job):
 
         def emit(path, argv, inp_lines, out_path):
             r = run_cli(argv, timeout=120)
-            out = lines_of(open(out_path).read()) if os.path.exists(out_path) else []
+            out = lines_of(read_out(out_path)) if os.path.exists(out_path) else []
             st = r["status"] if r["status"] == "ok" else r["status"] + ":" + r["exc"][:50]
             cases.append({"id": f"{fid}.{path}", "path": path, "status": st, "recs": pair_up(inp_lines, out)})
             return out
@@ -99,7 +99,7 @@ def run_file(job):
                 import random as _r
 
                 big = "".join(_r.Random(11).choice("ACGT") for _ in range(60010))
-                if not open(gfa).read().endswith("\n"):
+                if not read_out(gfa).endswith("\n"):
                     with open(gfa, "a") as f:
                         f.write("\n")
                 with open(gfa, "a") as f:
